@@ -390,6 +390,50 @@ def normalized(ctx):
         det = why if C1 is None else '; '.join('C%d%d: %s -> %s' % (i + 1, j + 1, C6[i, j], sp.simplify(C1[i, j])) for i in range(6) for j in range(i, 6) if not is_zero(C1[i, j] - C6[i, j], deep=False))[:300]
         ctx.ob('NORMALIZED', loc, '%s: normalising a tensor built from %s constants returns the same tensor (fixed point, hence idempotent; is_normal holds there)' % (system, system), bool(ok), det, node=fn, key=system)
     ctx.floor('NORMALIZED', n, 5)
+    # a generic tensor: the result, built the way normalized_as builds it (through the constructor's own keyword dispatch), has the system's symmetry and is a fixed point
+    gen = sym6('g', real=True)
+    init = ctx.fn(EC, 'ElasticConstants.__init__')
+
+    def via_init(kw):
+        o = _obj(ctx, None)
+        try:
+            live = [p for p in _ev(ctx).run_fn(init, [o], dict(kw)) if p.done == 'return']
+        except WouldRaise as e:
+            return None, 'constructor refuses %s: %s' % (sorted(kw), e)
+        except Opaque as e:
+            raise AnalysisError('ElasticConstants(%s): %s' % (sorted(kw), e))
+        if len(live) != 1:
+            return None, 'constructor refuses %s' % sorted(kw)
+        return o.attrs.get('_ElasticConstants__c_ij'), ''
+
+    def normalise(C, system):
+        try:
+            live = [p for p in _ev(ctx).run_fn(fn, [_obj(ctx, C), system], {}) if p.done == 'return']
+        except Opaque as e:
+            raise AnalysisError('normalized_as(%s): %s' % (system, e))
+        if len(live) != 1 or not isinstance(live[0].ret, Made):
+            return None, 'no single result'
+        return via_init(live[0].ret.kw)
+    gk = {'cubic': 'cubic', 'hexagonal': 'hexagonal', 'tetragonal': 'tetragonal7', 'rhombohedral': 'rhombohedral7', 'orthorhombic': 'orthorhombic'}
+    for system, _kw in cases:
+        C1, why = normalise(gen, system)
+        bad = ''
+        if C1 is None:
+            bad = why
+        else:
+            nv = _invariant(C1, GENERATORS[gk[system]])
+            if nv:
+                bad = 'result not invariant under %s' % (nv[0][0],)
+            else:
+                C2, why = normalise(C1, system)
+                if C2 is None:
+                    bad = 'second pass: ' + why
+                else:
+                    diff = ['C%d%d' % (i + 1, j + 1) for i in range(6) for j in range(i, 6) if not is_zero(C2[i, j] - C1[i, j], deep=False)]
+                    if diff:
+                        bad = 'second pass changes %s' % ', '.join(diff[:4])
+        ctx.ob('NORMALIZED', loc, '%s: a general tensor normalises (built through the constructor as normalized_as does) to one with the system\'s symmetry, and a second pass changes nothing' % system,
+               not bad, bad, node=fn, key='generic ' + system)
     # triclinic: plain copy
     c = sym6('c', real=True)
     ev = _ev(ctx)
